@@ -331,7 +331,8 @@ func (cm *c01Mux) req(verb, path string) string {
 	if verb == "WS" {
 		// a WebSocket handshake: its verb is the custom kind WEBSOCKET
 		r.Method = "GET"
-		r.Header.Set("Connection", "Upgrade")
+		// (Connection is a list of options compared without case: the three spellings are one handshake)
+		r.Header.Set("Connection", []string{"Upgrade", "keep-alive, Upgrade", "upgrade"}[len(path)%3])
 		r.Header.Set("Upgrade", "websocket")
 		r.Header.Set("Sec-WebSocket-Version", "13")
 		r.Header.Set("Sec-WebSocket-Key", "dGhlIHNhbXBsZSBub25jZQ==")
